@@ -196,37 +196,37 @@ theorem cooked_esc (s : List Char) (tail acc : List Char) (f : Nat) (hf : s.leng
       rw [show Print.escChar '"' = ['\\', '"'] from rfl]
       simp only [List.cons_append, List.nil_append]
       rw [cooked_bs]
-      simp [Lex.escape, ih']
+      simp [Lex.escape, Lex.escapeWith, ih']
     · by_cases h2 : c = '\\'
       · subst h2
         rw [show Print.escChar '\\' = ['\\', '\\'] from rfl]
         simp only [List.cons_append, List.nil_append]
         rw [cooked_bs]
-        simp [Lex.escape, ih']
+        simp [Lex.escape, Lex.escapeWith, ih']
       · by_cases h3 : c = '\n'
         · subst h3
           rw [show Print.escChar '\n' = ['\\', 'n'] from rfl]
           simp only [List.cons_append, List.nil_append]
           rw [cooked_bs]
-          simp [Lex.escape, ih']
+          simp [Lex.escape, Lex.escapeWith, ih']
         · by_cases h4 : c = '\r'
           · subst h4
             rw [show Print.escChar '\r' = ['\\', 'r'] from rfl]
             simp only [List.cons_append, List.nil_append]
             rw [cooked_bs]
-            simp [Lex.escape, ih']
+            simp [Lex.escape, Lex.escapeWith, ih']
           · by_cases h5 : c = '\t'
             · subst h5
               rw [show Print.escChar '\t' = ['\\', 't'] from rfl]
               simp only [List.cons_append, List.nil_append]
               rw [cooked_bs]
-              simp [Lex.escape, ih']
+              simp [Lex.escape, Lex.escapeWith, ih']
             · by_cases h6 : c = '\x00'
               · subst h6
                 rw [show Print.escChar '\x00' = ['\\', '0'] from rfl]
                 simp only [List.cons_append, List.nil_append]
                 rw [cooked_bs]
-                simp [Lex.escape, ih']
+                simp [Lex.escape, Lex.escapeWith, ih']
               · simp only [Print.escChar, h1, h2, h3, h4, h5, h6, if_false, List.cons_append,
                   List.nil_append]
                 rw [cooked_plain c h1 h4 h2, ih']
@@ -254,29 +254,30 @@ theorem lexLeaf_str (s : List Char) (rest : List Char) :
     (by have := length_esc_ge s; simp only [List.length_append, List.length_cons]; omega)
   simp only [Print.spellStr, List.cons_append, List.append_assoc, List.nil_append]
   rw [Lex.lexLeaf]
-  simp only [if_true]
+  simp only [if_true, Lex.cookedAll]
   rw [hc]
   simp [Lex.strTok, dropSuffix_space]
 
 /-! ## white space and delimiters -/
 
-theorem lexCore_space (f : Nat) (r : List Char) (st : List (Delim × Nat)) :
+theorem lexCore_space (f : Nat) (r : List Char) (st : List (Delim × Lex.Mark)) :
     Lex.lexCore (f + 1) (' ' :: r) st = Lex.lexCore f r st := by
   rw [Lex.lexCore]
   simp [show Lex.isWs ' ' = true from by decide]
 
-theorem lexCore_open (d : Delim) (f : Nat) (r : List Char) (st : List (Delim × Nat)) :
+theorem lexCore_open (d : Delim) (f : Nat) (r : List Char) (st : List (Delim × Lex.Mark)) :
     Lex.lexCore (f + 1) (Print.openCh d :: ' ' :: r) st =
-      (Lex.lexCore f (' ' :: r) ((d, r.length + 2) :: st)).map ((K.op d, r.length + 2) :: ·) := by
+      (Lex.lexCore f (' ' :: r) ((d, Lex.here (Print.openCh d :: ' ' :: r)) :: st)).map
+        ((K.op d, Lex.here (Print.openCh d :: ' ' :: r)) :: ·) := by
   rw [Lex.lexCore]
   cases d <;>
     simp [Print.openCh, show Lex.isWs '(' = false from by decide,
       show Lex.isWs '[' = false from by decide, show Lex.isWs '{' = false from by decide,
       Lex.scanSlash, Lex.delimOpen, Lex.isERROR, List.isPrefixOf]
 
-theorem lexCore_close (d : Delim) (f : Nat) (r : List Char) (n : Nat) (st : List (Delim × Nat)) :
+theorem lexCore_close (d : Delim) (f : Nat) (r : List Char) (n : Lex.Mark) (st : List (Delim × Lex.Mark)) :
     Lex.lexCore (f + 1) (Print.closeCh d :: r) ((d, n) :: st) =
-      (Lex.lexCore f r st).map ((K.cl d, r.length + 1) :: ·) := by
+      (Lex.lexCore f r st).map ((K.cl d, Lex.here (Print.closeCh d :: r)) :: ·) := by
   rw [Lex.lexCore]
   cases d <;>
     simp [Print.closeCh, show Lex.isWs ')' = false from by decide,
@@ -328,9 +329,9 @@ theorem intTail_space (rest : List Char) : IntTail (' ' :: rest) := by
   simp only [IntTail]; exact ⟨by decide, by decide⟩
 
 theorem lexCore_render (ks : List K) :
-    ∀ (st : List (Delim × Nat)) (st' : List Delim) (tail : List Char) (f : Nat),
+    ∀ (st : List (Delim × Lex.Mark)) (st' : List Delim) (tail : List Char) (f : Nat),
       chk (st.map (·.1)) ks = some st' →
-      ∃ (toks : List (K × Nat)) (st2 : List (Delim × Nat)),
+      ∃ (toks : List (K × Lex.Mark)) (st2 : List (Delim × Lex.Mark)),
         toks.map (·.1) = ks ∧ st2.map (·.1) = st' ∧
         Lex.lexCore (steps ks + f) (Print.renderCanon ks ++ tail) st
           = (Lex.lexCore f tail st2).map (toks ++ ·) := by
@@ -467,7 +468,7 @@ theorem lexCore_render (ks : List K) :
       · cases h
     | op d =>
       simp only [chk] at h
-      have h' : chk (((d, (Print.renderCanon ks ++ tail).length + 2) :: st).map (·.1)) ks = some st' := by
+      have h' : chk (((d, Lex.here (Print.openCh d :: ' ' :: (Print.renderCanon ks ++ tail))) :: st).map (·.1)) ks = some st' := by
         simpa using h
       obtain ⟨toks, st2, h1, h2, h3⟩ := ih _ st' tail f h'
       refine ⟨(K.op d, ?n6) :: toks, st2, by simp [h1], h2, ?_⟩
@@ -897,7 +898,7 @@ theorem lexL_render (ks : List K) (h : chk [] ks = some []) :
   have hnil : Lex.lexCore (g + 1) [] [] = .ok [] := rfl
   rw [hg, hnil] at h3
   simp only [Except.map, List.append_nil] at h3
-  refine ⟨toks.map fun p => ⟨p.1, Lex.posOfRem (Print.renderCanon ks) p.2⟩, ?_, ?_⟩
+  refine ⟨toks.map fun p => ⟨p.1, Lex.posOfRem (Print.renderCanon ks) p.2.rem⟩, ?_, ?_⟩
   · simp only [Lex.lexL, stripBom_render ks [] [] h, h3]
   · simp only [List.map_map]
     rw [← h1]
